@@ -5,7 +5,7 @@ import ast
 from ..report import rule
 from ..model import norm, NotConst, calls_in, stores_in, ShapeError, AnchorMissing, is_self_attr
 from ..paths import enumerate_paths, facts_at, walk_shallow, enclosing_stmt, always_leaves, enclosing_loops
-from ..guards import Evaluator, atom_texts, atoms_of_facts
+from ..guards import Evaluator, atom_texts, atoms_of_facts, conjuncts
 from .common import where, self_call, feasible, path_nodes, same_function, grid, subst_locals
 
 HEAP_FUNCS = ("heappush", "heappop", "heapify")
@@ -217,31 +217,99 @@ def r5(ctx):
     reach = sorted({(w, n) for w in G for n in G if ev.may_hold(fa, {"when": w, "now": n, "self.tasks": True})})
     ctx.check("TaskManager.get_next_task:not-early", reach == [(w, n) for w in G for n in G if w <= n], where(tm.module, pops[0]),
               "the head may be popped exactly when when <= now ((when, now) pairs reaching the pop: %r)" % reach)
-    # `when` is the head's time, read before
-    un = [s for s in walk_shallow(g) if isinstance(s, ast.Assign) and isinstance(s.targets[0], ast.Tuple) and norm(s.value) == "self.tasks[0]" and s.lineno < pops[0].lineno]
-    ok = len(un) == 1 and norm(un[0].targets[0].elts[0]) == "when" and norm(un[0].targets[0].elts[2]) != "task"
-    ctx.check("TaskManager.get_next_task:head", ok, where(tm.module, g), "`when` must be the due time of the current heap head")
     ctx.check("TaskManager.get_next_task:empty", not ev.may_hold(fa, {"self.tasks": False}), where(tm.module, pops[0]), "pop on an empty heap")
-    # the returned task is the popped head
-    st = [s for s in walk_shallow(g) if isinstance(s, ast.Assign) and norm(s.targets[0]) == "task" and s.lineno > un[0].lineno] if un else []
-    ok = len(st) == 1 and un and norm(st[0].value) == norm(un[0].targets[0].elts[2]) and getattr(st[0], "_parent", None) is getattr(enclosing_stmt(pops[0]), "_parent", None)
-    ctx.check("TaskManager.get_next_task:returns-head", ok, where(tm.module, g), "the task handed out must be the popped head")
-    # delta to the next task is non-negative
-    ds = [s for s in walk_shallow(g) if isinstance(s, ast.Assign) and norm(s.targets[0]) == "delta" and not (isinstance(s.value, ast.Constant))]
-    okd = bool(ds)
-    for s in ds:
-        fa2 = facts_at(s)
-        for w in (1, 2, 3):
-            for n in (1, 2, 3):
-                if ev.may_hold(fa2, {"when": w, "now": n, "self.tasks": True}) or any(norm(x.value) == "self.tasks[0]" for x in walk_shallow(g) if isinstance(x, ast.Assign) and x.lineno < s.lineno and x.lineno > pops[0].lineno):
-                    try:
-                        v = ev.value(s.value, {"when": w, "now": n})
-                    except NotConst:
-                        okd = False
+    # walk every path: the due time tested before the pop is the head's, the task handed out is the popped head, and a
+    # waiting time is (non-negatively clipped after a pop) `due time of the current head - now`
+    from .common import consistent
+    bad_head, bad_ret, bad_delta = [], [], []
+    npath = 0
+    for p_ in enumerate_paths(g):
+        if p_.term != "return" or not consistent(p_.conds()):
+            continue
+        npath += 1
+        head = None            # (name of due time, name of task) unpacked from self.tasks[0] most recently
+        popped = None          # name holding the popped task
+        alias = {}             # local -> local it was copied from
+        conds = []
+        repeek = False
+
+        def root(nm):
+            seen = set()
+            while nm in alias and nm not in seen:
+                seen.add(nm)
+                nm = alias[nm]
+            return nm
+        for e in p_.events:
+            if e.kind == "cond":
+                conds.append((e.node, e.pol))
+            nodes_ = [e.node] if e.kind in ("stmt", "return") else []
+            for n_ in nodes_:
+                if isinstance(n_, ast.Assign) and isinstance(n_.targets[0], ast.Tuple) and norm(n_.value) == "self.tasks[0]" and len(n_.targets[0].elts) == 3:
+                    head = (norm(n_.targets[0].elts[0]), norm(n_.targets[0].elts[2]))
+                    if popped is not None:
+                        repeek = True
+                elif isinstance(n_, ast.Assign) and isinstance(n_.targets[0], ast.Name) and isinstance(n_.value, ast.Name):
+                    alias[n_.targets[0].id] = n_.value.id
+                elif isinstance(n_, ast.Assign) and isinstance(n_.targets[0], ast.Name):
+                    alias.pop(n_.targets[0].id, None)
+                if any(isinstance(x, ast.Call) and norm(x.func) == "heappop" for x in ast.walk(n_)):
+                    # the guard that let us get here compares the head's due time with now
+                    okg = False
+                    if head is not None:
+                        for t_, pol_ in conds:
+                            for a_, ap_ in conjuncts(t_, pol_):
+                                tx = norm(a_)
+                                if ap_ and tx in ("%s <= now" % head[0], "now >= %s" % head[0]) or (not ap_ and tx in ("%s > now" % head[0], "now < %s" % head[0])):
+                                    okg = True
+                    if not okg:
+                        bad_head.append(p_.describe()[:120])
+                    popped = head[1] if head is not None else "?"
+                if e.kind == "return" and isinstance(n_, ast.Return):
+                    rv = n_.value
+                    elts = rv.elts if isinstance(rv, ast.Tuple) and len(rv.elts) == 2 else None
+                    if elts is None:
+                        bad_ret.append("return shape " + norm(rv) if rv is not None else "None")
                         continue
-                    if v < 0 and ev.may_hold(fa2, {"when": w, "now": n, "self.tasks": True}) and s.lineno < pops[0].lineno + 0:
-                        okd = False
-    ctx.check("TaskManager.get_next_task:delta", okd, where(tm.module, g), "time to the next task must be computed from the heap head")
+                    tsk = elts[0]
+                    tname = root(tsk.id) if isinstance(tsk, ast.Name) else None
+                    is_none = (isinstance(tsk, ast.Constant) and tsk.value is None) or (isinstance(tsk, ast.Name) and prog.try_const(tm.module, _last_const(p_, tsk.id), default=0) is None and tname == tsk.id and tsk.id not in (popped,))
+                    if popped is not None:
+                        if tname != popped:
+                            bad_ret.append("popped %s, returns %s" % (popped, norm(tsk)))
+                    elif not is_none:
+                        bad_ret.append("nothing popped, returns %s" % norm(tsk))
+                    dl = elts[1]
+                    dn = _sym_local(p_, dl)
+                    if not (isinstance(dn, ast.Constant) and dn.value is None):
+                        want = head[0] if head is not None else "?"
+                        tx = norm(dn)
+                        okd = tx in ("%s - now" % want, "max(%s - now, 0.0)" % want, "max(0.0, %s - now)" % want, "max(%s - now, 0)" % want)
+                        if popped is not None and not repeek:
+                            okd = False      # after a pop the waiting time must come from the new head
+                        if popped is not None and tx == "%s - now" % want:
+                            okd = False      # the next task may already be overdue: never a negative wait
+                        if not okd:
+                            bad_delta.append("%s (head due time %s%s)" % (tx, want, ", after a pop" if popped else ""))
+    ctx.check("TaskManager.get_next_task:head", not bad_head and npath > 0, where(tm.module, g), "`when` compared before the pop must be the due time of the current heap head: %s" % bad_head[:2])
+    ctx.check("TaskManager.get_next_task:returns-head", not bad_ret, where(tm.module, g), "the task handed out must be the popped head (and none when nothing was popped): %s" % bad_ret[:3])
+    ctx.check("TaskManager.get_next_task:delta", not bad_delta, where(tm.module, g), "time to the next task must be computed from the heap head: %s" % bad_delta[:3])
+    ctx.count("paths", npath)
+
+
+def _last_const(path, name):
+    """the expression last assigned to a local on the path (for `task = None` initialisations)"""
+    last = ast.Name(id=name, ctx=ast.Load())
+    for e in path.events:
+        if e.kind == "stmt" and isinstance(e.node, ast.Assign) and len(e.node.targets) == 1 and isinstance(e.node.targets[0], ast.Name) and e.node.targets[0].id == name:
+            last = e.node.value
+    return last
+
+
+def _sym_local(path, expr):
+    """expr with a plain local replaced by what was last assigned to it on the path"""
+    if isinstance(expr, ast.Name):
+        return _last_const(path, expr.id)
+    return expr
 
 
 @rule("C14.R6", "a task runs once per installation; only recurring tasks are re-installed, with a positive interval", floor=4, engines="E1 + E5")
